@@ -1,6 +1,10 @@
 mod adapter;
+mod c04;
+mod c17;
+mod c19;
 mod codec;
 mod space;
+mod tables;
 
 fn main() {
     let ctx = vmc::report::Ctx::from_args();
@@ -8,6 +12,12 @@ fn main() {
         "C01" => codec::run_c01(&ctx),
         "C03" => codec::run_c03(&ctx),
         "C20" => codec::run_c20(&ctx),
+        "C04" => c04::run(&ctx),
+        "C13" => tables::run_c13(&ctx),
+        "C14" => tables::run_c14(&ctx),
+        "C16" => tables::run_c16(&ctx),
+        "C17" => c17::run(&ctx),
+        "C19" => c19::run(&ctx),
         other => {
             eprintln!("MACHINERY-ERROR unknown check {}", other);
             std::process::exit(2)
